@@ -38,7 +38,7 @@ LEVEL = "model_checking"
 def run(ctx):
     q = ctx.quick
     c28.model_stage(ctx, "yaml")
-    n, sample_dir, sig_of = c28.trace_stage(ctx, "yaml", "c29", 90 if q else 1500)
+    n, sample_dir, sig_of = c28.trace_stage(ctx, "yaml", "c29", 90 if q else 450)
     ncli = 0
     if not ctx.violations:
         ncli = c28.cli_stage(ctx, "yaml", sample_dir, sig_of)
@@ -55,4 +55,24 @@ def run(ctx):
     ]
 
 
-# MUTANTS: see the bottom of this file after the mutation runs.
+# MUTANTS (scratch worktree /tmp/wt-c29, VERIF_REPO=/tmp/wt-c29 VERIF_SKIP_MODEL=1 ./check C29, quick tier, the known
+# finding listed; every one printed VIOLATION and exited 1, rejected by Trace_Locate.tla at the event shown):
+#  Y1 yaml/locate.rs count_siblings_before `<` -> `<=` (DESIGN Appendix A)  -> caught, event 2: `name: Alice` offset 0
+#     printed `.[1].name` (evaluates to null)
+#  Y2 yaml/locate.rs can_use_dot_notation allows `-` (DESIGN Appendix A)    -> first run NOT caught (exit 0): in yq parser
+#     mode `.foo-bar` IS a field access, so for every key of the first palette the mutant was equivalent.  A hyphen is
+#     only consumed when an identifier character follows, so keys ending in `-` or containing `--` still need brackets:
+#     added the keys "a-" and "x--y" to both palettes -> caught, event 189: `.[0].a-` does not parse
+#  Y3 yaml/locate.rs can_use_dot_notation allows `.`                         -> caught, event 171: `.[0].foo.bar`
+#  Y4 yaml/locate.rs document index off by one (index under the root + 1)   -> caught, event 2: `.[1].name` for document 0
+#  Y5 yaml/light.rs cursor_at_offset: inside a token -> the NEXT structural element -> caught, event 3: at_offset inside
+#     the key `name` returns "Alice" (locate unaffected)
+#  Y6 yaml/locate.rs sequence-item wrappers not skipped in path_to_bp       -> caught, event 28: offset inside a sequence
+#     item not located
+#  Y7 yaml/locate.rs escape_jq_string: double quote not escaped             -> caught, event 215: key `a"b`, expression
+#     `.[0]["a"b"]` does not parse
+#  Y8 yaml/locate.rs find_key_for_value: key token reported under the NEXT pair (key/value confusion) -> caught, event 2:
+#     offset 0 (key `name`) printed `.[0].age`, evaluates to 30
+#  model-level negative control run by every check: MC_Locate_dup.cfg must violate InvPath; it does.
+#  binding self-tests run by every check: corrupted `found`, corrupted evaluated value, corrupted at_offset value are
+#  each rejected exactly at the corrupted event.
